@@ -88,6 +88,16 @@ static void build_object(ezc3d::c3d& c, Built& B) {
     if (ex_type && ex_group == 2) { Param q("Second", "d2"); q.set(std::vector<int>() = {7, -8, 9}, std::vector<size_t>() = {3}); c.parameter(grp, q); }
   }
   (void)lockgrp;
+  // alignment filler: parameters whose descriptions have concrete lengths summing to cfg pad (steers the
+  // parameter-section length through all residues modulo the 512-byte block size)
+  int pad = __vp_cfg("pad");
+  for (int k = 0; pad >= 0 && k < 3; ++k) {
+    int len = pad > 255 ? 255 : pad;
+    std::string nm("PAD"); nm.push_back(char('A' + k));
+    Param p(nm, std::string(len, 'd')); p.set(std::vector<int>() = {k});
+    c.parameter("PADG", p);
+    pad -= len; if (pad == 0) pad = -1;
+  }
 }
 
 static void emit_inputs(const Built& B) {
